@@ -125,3 +125,5 @@ fn c15_from_hops() {
     }
     std::mem::forget(f);
 }
+
+fn verif_reset_statics() {}
